@@ -21,7 +21,7 @@ ASSUMPTIONS = ['vf.ref.sig decides whether a mutant is semantic (validated on fi
 MIN_COUNTERS = {'quick': {'semantic_mutants': 20000, 'baseline_true': 60, 'sig_bitflips': 10000, 'subject_mutants': 2000, 'key_mutants': 300,
                           'wrong_verifier': 20, 'type_confusion': 200, 'carrier_mutants': 2000},
                 'thorough': {'semantic_mutants': 100000, 'baseline_true': 200}}
-BUDGET = {'quick': (240, 800), 'thorough': (1800, 3600)}
+BUDGET = {'quick': (600, 1500), 'thorough': (1800, 3600)}
 TECHNIQUE = 'runtime monitoring: data-fault injection (bit flips, edits, type confusion, wrong verifier) with an independent-verifier oracle that filters equivalent mutants'
 
 SAME_ALG = {'ed25519_0': 'ed25519_2', 'rsa1024_0': 'rsa1024_2', 'rsa2048_0': 'rsa2048_2', 'dsa1024_0': 'dsa1024_2', 'dsa2048_0': 'dsa2048_2',
